@@ -290,6 +290,26 @@ def gen_c09(rnd, n, thorough=False):
             if wf != '0' and wu != '0' and wf.startswith('@+'):
                 wf, wu = '0', '0'
             lines.append("cliexit src=s:%s dest=%s:%s from=%s until=%s archive=%d" % (sname, db, dr, wf, wu, arch))
+        # the library's comparison API on two series: equal copies, single differing values, holes on one
+        # side, NaNs with different payloads, zeros of both signs, shifted ranges, different lengths
+        for _ in range(3):
+            nvals = rnd.randint(0, 6)
+            f0 = rnd.pick([1700000000, 2 ** 32 - 8, 60])
+            st = rnd.pick([1, 60, 7])
+            va = [cvalue(rnd) for _ in range(nvals)]
+            vb = list(va)
+            for _j in range(rnd.pick([0, 0, 1, 2])):
+                if vb:
+                    vb[rnd.randrange(len(vb))] = rnd.pick([NAN, 0x7ff8000000000002, 0, 0x8000000000000000, cvalue(rnd), fbits(1.0), 0x3ff0000000000001])
+            if rnd.chance(0.15):
+                vb = vb[:-1] if vb and rnd.chance(0.5) else vb + [cvalue(rnd)]
+            f1, u1, s1 = f0, (f0 + st * nvals) % 2 ** 32, st
+            r = rnd.random()
+            if r < 0.1: f1 = (f0 + st) % 2 ** 32
+            elif r < 0.2: u1 = (u1 + st) % 2 ** 32
+            elif r < 0.3: s1 = st * 2
+            ser = lambda f, u, s_, vs: "%d %d %d %d %s" % (f, u, s_, len(vs), " ".join("%016x" % v for v in vs))
+            lines.append(("tsapi %s | %s" % (ser(f0, (f0 + st * nvals) % 2 ** 32, st, va), ser(f1, u1, s1, vb))).replace("  ", " ").strip())
         cases.append({'id': 'c09-%d' % c, 'lines': lines, 'tags': {'layout': lname, 'pair': kind, 'window': wk, 'side': side}})
         if rnd.chance(0.2):
             gl = []
